@@ -23,16 +23,31 @@ OptS(o) == IF o = <<>> THEN N ELSE S(o[1])
 OptI(o) == IF o = <<>> THEN N ELSE I(o[1])
 OptQ(o) == IF o = <<>> THEN N ELSE Q(o[1])
 
-(* ---- date(str): strptime("%Y-%m-%d").  Judged: the canonical shape DDDD-DD-DD (a date or, if there is no such
-   day, NULL) and texts that hold a character no date spelling can contain (NULL).  Other spellings made only
-   of digits, dashes and blanks ("2020-1-5") are accepted by strptime's lenient fields and are not judged.   *)
-Canonical(s) == /\ Len(s) = 10 /\ Ch(s, 5) = "-" /\ Ch(s, 8) = "-"
-                /\ \A i \in {1, 2, 3, 4, 6, 7, 9, 10} : Ch(s, i) \in DigitSet
+(* ---- date(str): the text is read in the format "%Y-%m-%d" of strptime, Python's documented semantics: %Y is a
+   year of exactly four digits, and "when used with the strptime() method, the leading zero is optional for
+   formats %d, %m" - so YYYY-M-D with a month and a day of one or two digits each is that date (NULL if there is
+   no such day), and every other text is NULL: other ISO 8601 spellings (20200105, 2020-W01-7, 2020-005) are not
+   in the format.  Not judged: a blank right after a dash (CPython's day field also takes " 5"), characters
+   outside the table (the digits of other scripts).                                                          *)
+DateFieldsOK(p) == /\ Len(p) = 3 /\ Len(p[1]) = 4 /\ Len(p[2]) \in {1, 2} /\ Len(p[3]) \in {1, 2}
+                   /\ \A i \in 1..3 : IsDigits(p[i])
 DateOfStr(s) ==
-  IF Canonical(s)
-    THEN OptD(DateFromYMD(DigitsVal(SubSeq(s, 1, 4)), DigitsVal(SubSeq(s, 6, 7)), DigitsVal(SubSeq(s, 9, 10))))
-  ELSE IF s = "" \/ \E i \in 1..Len(s) : Ch(s, i) \notin (DigitSet \cup {"-", " "}) THEN N
-  ELSE OOD
+  IF \E i \in 1..Len(s) : Ch(s, i) \notin Chars THEN OOD
+  ELSE IF \E i \in 1..(Len(s) - 1) : Ch(s, i) = "-" /\ Ch(s, i + 1) = " " THEN OOD
+  ELSE LET p == Split(s, "-")
+       IN IF DateFieldsOK(p) THEN OptD(DateFromYMD(DigitsVal(p[1]), DigitsVal(p[2]), DigitsVal(p[3]))) ELSE N
+\* spellings of a date: YYYY-M-D with the month / the day zero padded or not; other ISO 8601 spellings
+Spell(o, pm, pd) == LET c == Civil(o) IN Pad4(c.y) \o "-" \o (IF pm THEN Pad2(c.m) ELSE ToString(c.m))
+                                         \o "-" \o (IF pd THEN Pad2(c.d) ELSE ToString(c.d))
+SpellCompact(o) == LET c == Civil(o) IN Pad4(c.y) \o Pad2(c.m) \o Pad2(c.d)
+SpellWeek(o, dashes, day) ==
+  Pad4(IsoYear(o)) \o (IF dashes THEN "-W" ELSE "W") \o Pad2(IsoWeek(o))
+  \o (IF day THEN (IF dashes THEN "-" ELSE "") \o ToString(IsoWeekday(o)) ELSE "")
+SpellOrdinal(o) == LET c == Civil(o)
+                       n == o - Ord(c.y, 1, 1) + 1
+                   IN Pad4(c.y) \o "-" \o (IF n < 100 THEN "0" ELSE "") \o Pad2(n)
+Spellings(o) == {Spell(o, pm, pd) : pm \in BOOLEAN, pd \in BOOLEAN}
+OtherSpellings(o) == {SpellCompact(o), SpellOrdinal(o)} \cup {SpellWeek(o, ds, dy) : ds \in BOOLEAN, dy \in BOOLEAN}
 
 \* a tagged input value (object-typed columns, special decimals)
 CastObj(target, t) ==
@@ -153,6 +168,8 @@ Apply(f, c, v) ==
                                [] c[2] = "str"  -> <<"s", v[1]>>
                                [] c[2] = "date" -> <<"d", v[1]>>
                                [] OTHER -> v[1])              \* "obj", "decx": already tagged
+    \* a cast of a text written as a literal in the statement: c = <<target type, text>> (the column is not used)
+    [] f = "cast_k" -> CastObj(c[1], <<"s", c[2]>>)
     [] OTHER -> OOD
 
 \* does the observation conform to the expected value e?  (joinstr: any enumeration order; a long quotient:
